@@ -273,3 +273,8 @@ def run(repo: Repo, rep: Report, tier: str) -> None:
             rep.obligations.append(f2)
             rep.failures.append(f2)
     rep.floor("reactor hand-back obligations", n_cp, 10)
+
+    # ---- the release request must be read at all ---------------------------------------------------
+    from .c03 import check_ready_probe
+    rep.rule("ready-probe", "the readiness probe sees an A-RELEASE-RQ sitting in the TLS buffer of any SSLSocket, whichever side wrapped it (C03's rule)")
+    check_ready_probe(repo, rep, "ready-probe")
